@@ -4,6 +4,7 @@ from __future__ import annotations
 from vf import dense, gen
 from vf.core import Clause, Property, Violation
 from vf.osk import IS_TM, eff_limit, eff_tau, outcome_values, rate_values
+from vf.props.c04 import big_lobbies
 from vf.refmodel import compare, reference
 
 T_LO, T_HI = 1e-8, 1e-2
@@ -107,6 +108,14 @@ PROPERTY = Property(
             thorough=200000,
             rule="two-team games whose standardised gap is drawn uniformly from [-10, 10] (spacing 7e-3 quick, 1e-4 thorough), compared with the reference; "
                  "non-trivial as above",
+        ),
+        Clause(
+            name="large-lobbies",
+            strategy=big_lobbies(),
+            check=check_c01,
+            quick=96,
+            thorough=2000,
+            rule="exploration beyond the stated 2..8 teams: lobbies of 9..40 teams compared with the reference",
         ),
     ],
     rule="generated (model kind, beta/kappa/tau/limit_sigma/gamma, 2..8 teams x 1..8 players in one of 7 value regimes, weak order, "
